@@ -156,6 +156,7 @@ def tag_level(n1: int, t1: bool, g1: bool, n2: int, t2: bool, g2: bool, n3: int,
     pre: 0 <= n1 <= 6 and 0 <= n2 <= 6 and 0 <= n3 <= 6
     pre: 1 <= count <= R.N(3)
     pre: is_group or not is_top
+    pre: R.env_int("VP_K") is None or n1 == R.env_int("VP_K")
     post: _
     """
     # is_top: these tags sit directly in a top-level parenthesised group; is_group: they sit in some group
@@ -221,6 +222,10 @@ def tag_rules(s: str, allow_placeholders: bool) -> bool:
         return got == ["TAG_EXTENSION_INVALID"]                  # an extension term is itself a schema node
     want = []
     dont_care = []
+    if rem == "/":
+        # a trailing slash is an empty node name: that is the formatting rule's business (NODE_NAME_EMPTY, decided
+        # with the delimiter kernel), the tag rules say nothing about it
+        return True
     if rem == "":
         if MR.has_attr(node, "requireChild"):
             want.append("TAG_REQUIRES_CHILD")                    # leaf use of a node that requires a child
@@ -282,19 +287,19 @@ HARNESSES = [
         outside="strings longer than the bound; non-ASCII blanks"),
     R.H("forbidden_chars", ["hed.validator.util.char_util.CharValidator.check_invalid_character_issues",
                             "hed.validator.util.char_util.CharValidator._report_invalid_character_error"],
-        quick=R.tier(cells=R.int_cells("VP_LEN", 0, 3), env={"VP_N": 3}, timeout=200,
-                     bound="every Unicode string s, len <= 3, both placeholder modes, both character rule sets"),
-        thorough=R.tier(cells=R.int_cells("VP_LEN", 0, 5), env={"VP_N": 5}, timeout=1200,
-                        bound="every Unicode string s, len <= 5"),
+        quick=R.tier(cells=R.int_cells("VP_LEN", 0, 2), env={"VP_N": 2}, timeout=300,
+                     bound="every Unicode string s, len <= 2, both placeholder modes, both character rule sets"),
+        thorough=R.tier(cells=R.int_cells("VP_LEN", 0, 4), env={"VP_N": 4}, timeout=1800,
+                        bound="every Unicode string s, len <= 4"),
         what="exactly one error per index holding a forbidden character ([]~, {} unless placeholders are allowed, "
              "non-printable under 8.3 rules / non-ASCII under legacy rules), code CHARACTER_INVALID "
              "(TILDES_UNSUPPORTED for '~'), in index order, the message naming that index",
         oracle="inline per-character predicate", stubs=[], outside="longer strings"),
     R.H("tag_level", ["hed.validator.util.group_util.GroupValidator.check_tag_level_issue"],
-        quick=R.tier(env={"VP_N": 2}, timeout=240,
+        quick=R.tier(cells=R.int_cells("VP_K", 0, 6), env={"VP_N": 2}, timeout=300,
                      bound="1-2 tags, each any of the 6 reserved names or 'Other', any tagGroup/topLevelTagGroup bits, "
                            "any placement"),
-        thorough=R.tier(env={"VP_N": 3}, timeout=1500, bound="1-3 tags"),
+        thorough=R.tier(cells=R.int_cells("VP_K", 0, 6), env={"VP_N": 3}, timeout=1800, bound="1-3 tags"),
         what="the multiset of error codes equals the reference: tagGroup tag outside a group, top-level tag outside a "
              "top-level group (+DEFINITION_INVALID / TEMPORAL_TAG_ERROR), several top-level tags unless Delay + one "
              "temporal/duration tag",
@@ -307,11 +312,11 @@ HARNESSES = [
          "hed.validator.util.tag_util.TagValidator.check_tag_requires_child",
          "hed.schema.hed_schema.HedSchema._find_tag_entry", "hed.schema.hed_schema.HedSchema._find_tag_subfunction",
          "hed.schema.hed_schema.HedSchema._validate_remaining_terms"],
-        quick=R.tier(cells=R.str_cells(3, split1_from=2, split2_from=3, nclass=4, minlen=1), env={"VP_N": 3},
-                     timeout=240, bound="every printable-ASCII tag text s (no ',()', no outer blanks), len <= 3, "
+        quick=R.tier(cells=R.str_cells(3, split1_from=2, split3_from=3, nclass=4, minlen=1), env={"VP_N": 3},
+                     timeout=300, bound="every printable-ASCII tag text s (no ',()', no outer blanks), len <= 3, "
                                         "with and without placeholders allowed, on the mini schema"),
-        thorough=R.tier(cells=R.str_cells(4, split1_from=2, split2_from=3, nclass=4, minlen=1), env={"VP_N": 4},
-                        timeout=1500, path_timeout=60, bound="same with len <= 4"),
+        thorough=R.tier(cells=R.str_cells(4, split1_from=2, split3_from=3, nclass=4, minlen=1), env={"VP_N": 4},
+                        timeout=1800, path_timeout=60, bound="same with len <= 4"),
         what="error codes of tag identification + the individual tag validators equal the reference: unknown tag "
              "TAG_INVALID, extension term that is a schema node / extension under a non-extensible node "
              "TAG_EXTENSION_INVALID, leaf requireChild TAG_REQUIRES_CHILD, '#' without placeholders "
